@@ -124,6 +124,14 @@ func c08run(c *fw.Ctx, cfg c08cfg, ops []cop, fixParent bool) (div *heapDiv, st 
 	} else {
 		c.Add("runs_without_evict_callback", 1)
 	}
+	if cfg.Unit && cfg.Keys%3 == 0 {
+		// a size function set and then reset with nil: unit sizes again
+		conf = conf.WithSize(func(v CVal) int64 { return v.Sz + 5 }).WithSize(nil)
+	}
+	if cfg.NoCallback && cfg.Keys%2 == 0 {
+		// a callback set and then removed with nil
+		conf = conf.OnEvict(func(k int, v CVal) { calls = append(calls, lruEntry{k, v}) }).OnEvict(nil)
+	}
 	if !cfg.Unit {
 		conf = conf.WithSize(func(v CVal) int64 {
 			if cfg.MaxScale && v.Sz > cfg.Limit {
